@@ -1,5 +1,6 @@
 """C02 - loop shell of bounded model checking: ordering, step provenance, verdict provenance, pairing."""
 from ..tree import *  # noqa
+from .. import norm
 from ..flow import Index, Pairing
 
 BMC = "patronus::mc::bmc::bmc"
@@ -400,6 +401,16 @@ def queried(c_, ix, defs, sys_id, k_id):
                 src, pre2 = chain(init)
                 pre = pre2 + pre
         pn = [m[0] for m in pre]
+        if "map" not in pn and peel(base).get("k") == "local":
+            # the list may be filled by a loop instead of map/collect
+            bl = norm.built_by_loop(ix, defs, peel(base)["id"])
+            if bl is not None:
+                it, pat, el, lp = bl
+                b = strip_try(el)
+                vb = binding_of_pat(pat)
+                if is_get_signal_at(b) and vb and is_local(b["args"][1], vb[1]) and is_local(b["args"][2], k_id) and sys_list(it, defs, sys_id, "bad_states") \
+                        and not any(x in pn for x in ("filter", "skip", "take", "step_by", "rev", "skip_while", "take_while", "filter_map")):
+                    return "joint", ""
         if "map" in pn:
             mp = pre[pn.index("map")]
             cl = peel(mp[1][0])
